@@ -80,6 +80,27 @@ func (c18) Generate(r *simkit.Rand, tier string) any {
 	if r.Chance(0.3) {
 		c.Actors = append(c.Actors, C18Actor{Role: "intruder", Ops: []C18Op{{Kind: "badpub", N: 1}, {Kind: "badpub", N: 1}}})
 	}
+	if r.Chance(0.3) {
+		// a process that tries to register (and to unregister) the name the producer owns, is refused, and terminates
+		sq := C18Actor{Role: "squatter"}
+		for i, n := 0, r.Range(1, 2); i < n; i++ {
+			sq.Ops = append(sq.Ops, C18Op{Kind: simkit.Pick(r, "regdup", "regdup", "unregdup")})
+		}
+		if r.Chance(0.8) {
+			sq.Ops = append(sq.Ops, C18Op{Kind: "die"})
+		}
+		c.Actors = append(c.Actors, sq)
+		// the event lives for the whole run (a registration that succeeds after the producer gave
+		// the name up would start a second incarnation of the event, which the oracle does not model)
+		po := c.Actors[0].Ops
+		if k := po[len(po)-1].Kind; k == "unregister" || k == "die" {
+			c.Actors[0].Ops = po[:len(po)-1]
+		}
+		if r.Bool() {
+			// keep the producer busy after the squatter is gone
+			c.Actors[0].Ops = append([]C18Op{{Kind: "pub", N: 1}, {Kind: "pause"}}, c.Actors[0].Ops...)
+		}
+	}
 	remote := r.Chance(0.35)
 	for i, n := 0, r.Range(1, 4); i < n; i++ {
 		a := C18Actor{Role: "consumer", Link: r.Bool(), Remote: remote && r.Bool()}
@@ -130,6 +151,7 @@ func (c18) Sched(r *simkit.Rand, c any) simkit.SchedSpec {
 
 type c18Pub struct {
 	num      int
+	by       int // index of the publishing actor
 	inv, ret int
 	err      error
 }
@@ -192,7 +214,7 @@ func (c18) Run(e *simkit.Env, cc any) {
 		alive bool
 	}
 	cons := map[int]*consumerState{}
-	publish := func(p *Probe, tok gen.Ref, count int) {
+	publish := func(by int, p *Probe, tok gen.Ref, count int) {
 		for i := 0; i < count; i++ {
 			mu.Lock()
 			nextNum++
@@ -201,7 +223,7 @@ func (c18) Run(e *simkit.Env, cc any) {
 			inv := e.Step()
 			err := p.SendEvent("ev", tok, num)
 			mu.Lock()
-			pubs = append(pubs, c18Pub{num: num, inv: inv, ret: e.Step(), err: err})
+			pubs = append(pubs, c18Pub{num: num, by: by, inv: inv, ret: e.Step(), err: err})
 			mu.Unlock()
 			e.Logf("publish %d -> %v", num, err)
 		}
@@ -230,7 +252,9 @@ func (c18) Run(e *simkit.Env, cc any) {
 						for _, op := range ac.Ops {
 							switch op.Kind {
 							case "pub":
-								publish(p, token, op.N)
+								publish(ai, p, token, op.N)
+							case "pause":
+								e.Sleep(50 * time.Millisecond)
 							case "unregister":
 								mu.Lock()
 								endStart = e.Step()
@@ -276,7 +300,7 @@ func (c18) Run(e *simkit.Env, cc any) {
 				defer close(dones[ai])
 				for _, op := range ac.Ops {
 					if ac.Role == "publisher" {
-						publish(p, token, op.N)
+						publish(ai, p, token, op.N)
 						continue
 					}
 					bad := token
@@ -293,6 +317,49 @@ func (c18) Run(e *simkit.Env, cc any) {
 						e.Fail("C18/wrong-token-error", "SendEvent with a wrong token returned %v", err)
 					} else {
 						e.Probe("wrong-token-refused")
+					}
+				}
+				return nil
+			}
+		case "squatter":
+			h.Message = func(p *Probe, from gen.PID, m any) error {
+				if m != "go" {
+					return nil
+				}
+				defer close(dones[ai])
+				for _, po := range c.Actors[0].Ops {
+					if po.Kind == "unregister" || po.Kind == "die" {
+						return nil // see Generate
+					}
+				}
+				for _, op := range ac.Ops {
+					mu.Lock()
+					endedBefore := endStart >= 0
+					mu.Unlock()
+					switch op.Kind {
+					case "regdup":
+						_, err := p.RegisterEvent("ev", gen.EventOptions{})
+						e.Logf("squatter register -> %v", err)
+						if err == nil && !endedBefore {
+							mu.Lock()
+							ended := endStart >= 0
+							mu.Unlock()
+							if !ended {
+								e.Fail("C18/name-registered-twice", "a second process registered the event name while the producer's registration was in place")
+							}
+							return nil
+						}
+						e.Probe("duplicate-registration-refused")
+					case "unregdup":
+						err := p.UnregisterEvent("ev")
+						e.Logf("squatter unregister -> %v", err)
+						if err == nil {
+							e.Fail("C18/unregistered-by-stranger", "a process that does not own the event unregistered it")
+							return nil
+						}
+					case "die":
+						e.Logf("squatter dies")
+						return fmt.Errorf("boom-squatter")
 					}
 				}
 				return nil
@@ -493,6 +560,49 @@ func (c18) Run(e *simkit.Env, cc any) {
 				endInv = endStart
 				if endDone >= 0 {
 					endRet = min(endRet, endDone)
+				}
+			}
+			// continuity: whatever this subscription saw first of one publisher (in the returned
+			// buffer or in the stream), it also sees every later publication of that publisher
+			// made before the subscription ends
+			{
+				sawNum := map[int]bool{}
+				for _, n := range s.buf {
+					sawNum[n] = true
+				}
+				// a received publication is attributed to this subscription only if it cannot have
+				// been delivered through an earlier one (it began after that one was removed)
+				prevEnd := 0
+				for _, ps := range st.subs[:si] {
+					if ps.err == nil {
+						prevEnd = 1 << 30
+						if ps.unsubbed {
+							prevEnd = ps.unsubRet
+						}
+					}
+				}
+				gotAtAll := map[int]bool{}
+				for _, r := range st.recv {
+					gotAtAll[r.num] = true
+					if q := findPub(pubs, r.num); q != nil && q.inv >= prevEnd && r.step >= s.inv {
+						sawNum[r.num] = true
+					}
+				}
+				first := map[int]int{}
+				for _, p := range okPubs {
+					if sawNum[p.num] {
+						if f, ok := first[p.by]; !ok || p.num < f {
+							first[p.by] = p.num
+						}
+					}
+				}
+				for _, p := range okPubs {
+					f, ok := first[p.by]
+					if ok && p.num > f && p.ret < endInv && !sawNum[p.num] && !gotAtAll[p.num] {
+						e.Fail("C18/gap", "consumer %d (%s, remote=%v): subscription (steps %d-%d, buffer %v) saw publication %d of actor %d but neither its buffer nor its stream has the later publication %d (steps %d-%d) made before the subscription ended (%d)",
+							ai, map[bool]string{true: "link", false: "monitor"}[st.link], c.Actors[ai].Remote, s.inv, s.ret, s.buf, f, p.by, p.num, p.inv, p.ret, endInv)
+						return
+					}
 				}
 			}
 			var before []int
